@@ -161,12 +161,14 @@ def _case_h2(rng, tier, n, h2c=False):
         req["headers"] = [(b"Connection", b"Upgrade, HTTP2-Settings"), (b"Upgrade", b"h2c"),
                           (b"HTTP2-Settings", base64.urlsafe_b64encode(st).rstrip(b"="))]
         req["ows"] = [b" "] * 3
+        rspec["skip_h1_101"] = True
         data = G.serialize_h1(req)
         pre = client_preface(fb, rspec)
         if rng.random() < 0.5:
             client.append(["feed", data + pre])
         else:
-            client.append(["feed", data])
+            client.append(["feed_nosettle", data])
+            client.append(["quiesce"])
             client.append(["feed", pre])
     else:
         blob += client_preface(fb, rspec)
@@ -266,19 +268,9 @@ def check(case, obs, tally):
     # ---- HTTP/2 (incl. h2c-upgraded stream 1) ---------------------------------------------
     rx = obs.reactor
     if truth["proto"] == "h2c":
-        # the 101 precedes the HTTP/2 frames; the driver fed everything to the frame reader, so re-read
-        from ..wire.h2raw import H2Reactor
-
-        data = obs.outbytes
-        idx = data.find(b"\r\n\r\n")
-        if not data.startswith(b"HTTP/1.1 101") or idx < 0:
+        if rx.upgrade_head is None or not rx.upgrade_head.startswith(b"HTTP/1.1 101"):
             tally.inconclusive["h2c-no-101(C13)"] += 1
             return out
-        rx = H2Reactor({"kind": "h2", "credit": "none", "initial_window": case["reactor"].get("initial_window", 65535),
-                        "max_frame": case["reactor"].get("max_frame", 16384)}, obs.trace)
-        rx.conn_win = 1 << 30
-        rx.init_win = 1 << 30
-        rx.react(data[idx + 4:], 0.0)
     if rx.errors():
         out.append({"clause": "h2.end", "sig": "C02.h2/frame-errors", "detail": repr(rx.errors()[:3])})
     for i, resp in enumerate(truth["responses"]):
